@@ -355,7 +355,9 @@ func (l *labelsGetter) getFetchRequest(fingerprints map[uint64]bool) sql.ISelect
 		AndWhere(
 			sql.NewIn(sql.NewRawObject("fingerprint"), fps...),
 			sql.Ge(sql.NewRawObject("date"), sql.NewStringVal(FormatFromDate(l.DateFrom))),
-			sql.Le(sql.NewRawObject("date"), sql.NewStringVal(l.DateTo.UTC().Format("2006-01-02"))))
+			sql.Le(sql.NewRawObject("date"), sql.NewStringVal(l.DateTo.UTC().Format("2006-01-02"))),
+			// metric series only, like every other PromQL read: a log stream under the same fingerprint keeps its own labels
+			sql.NewIn(sql.NewRawObject("type"), sql.NewIntVal(2), sql.NewIntVal(0)))
 	return req
 }
 
